@@ -1067,6 +1067,7 @@ def normalize_lines(events):
         else:
             out.append(ev)
             i += 1
+    out = [ev for ev in out if ctx_feasible(ev.ctx)]
     for k, ev in enumerate(out):
         ev.order = k
     return out
@@ -1695,6 +1696,12 @@ class CallExpander:
         self.NF = NF(F)
         self.cache = {}
 
+    def const_text(self, path):
+        for c in self.F.lib.items.get("consts", []):
+            if c["path"] == path and isinstance(c.get("value"), str):
+                return c["value"]
+        return None
+
     def summary(self, path):
         if path in self.cache:
             return self.cache[path]
@@ -1759,6 +1766,43 @@ def _literal_only(n):
     return not [r for r in nf_roots(n) if r[0] != "lit"]
 
 
+def decision(cond, branch):
+    """(key, value) of the decision a branch condition stands for; the spellings of one decision share the key:
+    `x.is_some()`, `if let Some(..) = x`, `x.is_none()`, `match x { None => .. }`, negations."""
+    c = cond
+    while isinstance(c, tuple) and c[0] == "not":
+        c, branch = c[1], not branch
+    if isinstance(c, tuple) and c[0] == "islet":
+        lab = c[1].rsplit("::", 1)[-1]
+        if lab.startswith("Some("):
+            return ("some", c[2]), branch
+        if lab == "None":
+            return ("some", c[2]), not branch
+    if isinstance(c, tuple) and c[0] == "call" and c[2] and str(c[1]).rsplit("::", 1)[-1] in ("is_some", "is_none"):
+        return ("some", c[2][0]), branch == str(c[1]).endswith("is_some")
+    return ("cond", c), branch
+
+
+def ctx_feasible(ctx):
+    """False when two branch conditions of the context contradict each other (same decision, opposite outcome), or a decision
+    about a literal None / Some(..) goes the impossible way."""
+    seen = {}
+    for c in ctx:
+        if c[0] != "alt":
+            continue
+        k, v = decision(c[1], c[2])
+        if k[0] == "some":
+            base = k[1]
+            if (isinstance(base, tuple) and base[0] == "lit" and base[1] is None) or nf_str(base) == "None":
+                if v:
+                    return False
+            if isinstance(base, tuple) and base[0] == "call" and base[1] == "Some" and not v:
+                return False
+        if seen.setdefault(k, v) != v:
+            return False
+    return True
+
+
 def canon_parts(parts, CE, limit=24):
     """Canonical form of a template: Display holes whose value is itself a text template are spliced into the template
     (`format!`, string literals) and holes that choose between templates (`if`/`if let`/two-armed option `match`, after expanding
@@ -1795,6 +1839,12 @@ def _canon_hole(p, CE, limit):
     k = e[0]
     if k == "lit" and isinstance(e[1], str):
         return [([("lit", e[1])], ())]
+    if k == "const" and CE is not None:
+        # a string constant of the crate (value evaluated by the compiler): template text, unless it is one of the large
+        # verbatim blocks (file header, helper module), which stay holes for the rules about them
+        txt = CE.const_text(e[1])
+        if txt is not None and len(txt) < 400 and txt.count("\n") <= 1:
+            return [([("lit", txt)], ())]
     if k == "format":
         return canon_parts([(q if q[0] == "lit" else (("hole",) + tuple(q[1:]) + (("?",) if len(q) < 4 else ()))) for q in e[1]], CE, limit)
     if k == "match" and 2 <= len(e[2]) <= 6:
